@@ -320,7 +320,7 @@ def check(case, ctx):
                                  dict(step=step, op=op, raised=raised, expected=exp_raise, history=case["h"][:step + 1])))
             break
         ctx.mon("model_step")
-        if tolerant and len(lib.blocks) == len(model.slots):
+        if tolerant and not raised and len(lib.blocks) == len(model.slots):
             # the call named a block that was not held itself: where the library put that equal copy in place of the held
             # one (a rolled-back replace re-inserts the block it was given), follow it - equal by value, as the statement asks
             rev = {id(v): k for k, v in U.items()}
